@@ -123,7 +123,7 @@ theorem C11_buckets_hold_blocks (items : List T) (hnd : ((items.map mkBlk).map (
     ∀ bk ∈ mkBuckets (items.map mkBlk), bk.2 = (items.map mkBlk).filter (fun b => groupIdOf b.item == bk.1) :=
   (mkBuckets_char _ hnd).1
 
-/-! ## Non-vacuity: the README example is accepted -/
+/-! ### Trees for the closed examples -/
 
 namespace Ex11
 def leaf (s : String) : T := .node s [] []
@@ -154,6 +154,145 @@ theorem ParseResult.ok_of_check {r : ParseResult} {f : Groups → Bool}
   | ok gs => exact ⟨gs, rfl, h⟩
   | unableToForm _ => cases h
   | panic _ => cases h
+
+/-! ## Part 4 — partition with nested headers: reduced to the counters -/
+
+/-- every block of every header the search processes is placed exactly once, in every accepted grouping:
+    the members are a rearrangement of the blocks of the processed headers, `parseTrace items` — a function of
+    the superset counters alone (`traceRec` / `traceUnlock` / `traceGo` mirror the search but only follow the
+    counters). In particular the counters returned by all backtracking alternatives agree (`search_trace`), so
+    taking those of the last successful alternative is harmless. -/
+theorem C11_members_are_trace_blocks (items : List T) (groups : Groups) (h : parseGroups items = .ok groups) :
+    ∃ tr, parseTrace items = some tr ∧
+      (groups.flatMap (fun e => e.2.2)).Perm (tr.flatMap (parseEnv items).impls) :=
+  parseGroups_trace h
+
+/-- partition for inputs with nested headers, under the executable condition `traceCovers items`: the counters
+    unlock every header exactly once (`parseTrace items` is a rearrangement of the bucket headers) -/
+theorem C11_partition_of_trace (items : List T) (groups : Groups) (h : parseGroups items = .ok groups)
+    (hc : traceCovers items = true) :
+    (groups.flatMap (fun e => e.2.2)).Perm ((mkBuckets (items.map mkBlk)).flatMap (fun bk => bk.2)) :=
+  parseGroups_partition_of_trace h hc
+
+namespace Ex11
+/-- `impl<T: Dispatch<Group = g>> Kita for self {}` -/
+def blockSelf (g : String) (self : T) : T := implOf [tyParam "T" [traitBound (dispatch g)]] self
+def paren (t : T) : T := .node "Type::Paren" [] [t]
+/-- `Vec<x>` -/
+def vecOf (x : T) : T := tyPath [.node "PathSegment" [] [.node "Ident" ["Vec"] [],
+  .node "PathArguments::AngleBracketed" [] [.node "Ign" [] [leaf "None"], .node "List" [] [.node "GenericArgument::Type" [] [x]]]]]
+def tT : T := tyPath [seg "T"]
+end Ex11
+
+section Defect
+open Ex11
+set_option maxRecDepth 1000000
+
+/-- regression witness of a repaired defect (/repo commit 3e16a6b "fix: impl group ids that generalise each other no
+    longer wait on each other"): two headers that generalise each other — they differ only by parentheses — used to
+    be given a non-zero superset counter each, neither was a root and the accepted grouping was EMPTY. Now the earlier
+    one is the root, both blocks are placed in one family and the counters cover every header.
+    `impl<T: Dispatch<Group = GroupA>> Kita for (T) {}`  +  `impl<T: Dispatch<Group = GroupB>> Kita for T {}` -/
+theorem C11_partition_mutual_headers_pair :
+    ∃ gs, parseGroups [blockSelf "GroupA" (paren tT), blockSelf "GroupB" tT] = .ok gs ∧
+      (gs.map (fun (e : T × ABG × List Blk) => e.2.2.length) == [2] &&
+       traceCovers [blockSelf "GroupA" (paren tT), blockSelf "GroupB" tT]) = true :=
+  ParseResult.ok_of_check (f := fun gs => gs.map (fun (e : T × ABG × List Blk) => e.2.2.length) == [2] &&
+    traceCovers [blockSelf "GroupA" (paren tT), blockSelf "GroupB" tT]) (by with_unfolding_all decide)
+
+/-- regression witness, former partial loss: below a common generaliser the two mutually generalising headers
+    never reached counter 0 and two of three blocks were dropped; now all three are placed in one family.
+    `… Kita for T {}`  +  `… Kita for Vec<T> {}`  +  `… Kita for (Vec<T>) {}` (three different `Group`s) -/
+theorem C11_partition_mutual_headers_nested :
+    ∃ gs, parseGroups [blockSelf "GroupA" tT, blockSelf "GroupB" (vecOf tT), blockSelf "GroupC" (paren (vecOf tT))] = .ok gs ∧
+      (gs.map (fun (e : T × ABG × List Blk) => e.2.2.length) == [3] &&
+       traceCovers [blockSelf "GroupA" tT, blockSelf "GroupB" (vecOf tT), blockSelf "GroupC" (paren (vecOf tT))]) = true :=
+  ParseResult.ok_of_check (f := fun gs => gs.map (fun (e : T × ABG × List Blk) => e.2.2.length) == [3] &&
+    traceCovers [blockSelf "GroupA" tT, blockSelf "GroupB" (vecOf tT), blockSelf "GroupC" (paren (vecOf tT))])
+    (by with_unfolding_all decide)
+
+/-- `traceCovers` holds on nested inputs without mutual generalisation: a chain `T ⊐ Vec<T>`, accepted with both
+    blocks placed -/
+example : traceCovers [blockSelf "GroupA" tT, blockSelf "GroupB" (vecOf tT)] = true ∧
+    noNesting [blockSelf "GroupA" tT, blockSelf "GroupB" (vecOf tT)] = false := by with_unfolding_all decide
+end Defect
+
+/-! ## Part 4b — partition for nested headers, under executable acyclicity (Kahn's argument) -/
+
+/-- if the generalisation relation recorded by `make_sets` between the bucket headers is acyclic (`acyclicB`:
+    peeling off the headers without a remaining recorded generaliser `|headers|` times leaves nothing), the
+    counters unlock every header exactly once -/
+theorem C11_traceCovers_of_acyclic (items : List T) (groups : Groups) (h : parseGroups items = .ok groups)
+    (ha : acyclicB items = true) : traceCovers items = true := by
+  obtain ⟨tr, ht, _⟩ := parseGroups_trace h
+  exact traceCovers_of_acyclic items tr ht ha
+
+/-- the full partition statement for inputs with nested headers (chains, diamonds, …): every block is placed
+    exactly once in every accepted grouping, provided the recorded header relation is acyclic -/
+theorem C11_partition_acyclic (items : List T) (groups : Groups) (h : parseGroups items = .ok groups)
+    (ha : acyclicB items = true) :
+    (groups.flatMap (fun e => e.2.2)).Perm ((mkBuckets (items.map mkBlk)).flatMap (fun bk => bk.2)) :=
+  parseGroups_partition_acyclic h ha
+
+namespace Ex11
+/-- `impl<T: Dispatch<Group = g>, U> Kita for self {}` -/
+def blockSelf2 (g : String) (self : T) : T := implOf [tyParam "T" [traitBound (dispatch g)], tyParam "U" []] self
+def tU : T := tyPath [seg "U"]
+def tup (xs : List T) : T := .node "Type::Tuple" [] [.node "List" [] xs]
+end Ex11
+
+section Acyclic
+open Ex11
+set_option maxRecDepth 1000000
+
+/-- `acyclicB` holds on: a chain `T ⊐ Vec<T> ⊐ Vec<Vec<T>>`; the diamond
+    `(T,U) ⊐ (Vec<T>,U), (T,Vec<U>) ⊐ (Vec<T>,Vec<U>)` in both input orders; a V-shape `(Vec<T>,U), (T,Vec<U>) ⊐
+    (Vec<T>,Vec<U>)` with two roots; and the two mutual-header inputs of the repaired defect -/
+theorem C11_acyclic_examples :
+    acyclicB [blockSelf "GroupA" tT, blockSelf "GroupB" (vecOf tT), blockSelf "GroupC" (vecOf (vecOf tT))] = true ∧
+    acyclicB [blockSelf2 "GroupA" (tup [tT, tU]), blockSelf2 "GroupB" (tup [vecOf tT, tU]),
+      blockSelf2 "GroupC" (tup [tT, vecOf tU]), blockSelf2 "GroupD" (tup [vecOf tT, vecOf tU])] = true ∧
+    acyclicB [blockSelf2 "GroupD" (tup [vecOf tT, vecOf tU]), blockSelf2 "GroupC" (tup [tT, vecOf tU]),
+      blockSelf2 "GroupB" (tup [vecOf tT, tU]), blockSelf2 "GroupA" (tup [tT, tU])] = true ∧
+    acyclicB [blockSelf2 "GroupB" (tup [vecOf tT, tU]), blockSelf2 "GroupC" (tup [tT, vecOf tU]),
+      blockSelf2 "GroupD" (tup [vecOf tT, vecOf tU])] = true ∧
+    acyclicB [blockSelf "GroupA" (paren tT), blockSelf "GroupB" tT] = true ∧
+    acyclicB [blockSelf "GroupA" tT, blockSelf "GroupB" (vecOf tT), blockSelf "GroupC" (paren (vecOf tT))] = true := by
+  with_unfolding_all decide
+
+/-- the diamond is accepted, and by `C11_partition_acyclic` all four blocks are placed exactly once -/
+example :
+    let items := [blockSelf2 "GroupA" (tup [tT, tU]), blockSelf2 "GroupB" (tup [vecOf tT, tU]),
+      blockSelf2 "GroupC" (tup [tT, vecOf tU]), blockSelf2 "GroupD" (tup [vecOf tT, vecOf tU])]
+    ∃ gs, parseGroups items = .ok gs ∧
+      (gs.flatMap (fun e => e.2.2)).Perm ((mkBuckets (items.map mkBlk)).flatMap (fun bk => bk.2)) := by
+  intro items
+  obtain ⟨gs, hgs, _⟩ := ParseResult.ok_of_check (r := parseGroups items) (f := fun _ => true)
+    (by with_unfolding_all decide)
+  exact ⟨gs, hgs, C11_partition_acyclic items gs hgs C11_acyclic_examples.2.1⟩
+end Acyclic
+
+/-! ## Part 5 — families with unrelated headers are independent -/
+
+/-- without nested headers the grouping is computed bucket by bucket by the plain recursion `flatSearch`
+    (no counters, no unlocking): `parseGroups` is `goFlat` over the buckets -/
+theorem C11_flat (items : List T) (hn : noNesting items = true) :
+    parseGroups items = goFlat (mkBuckets (items.map mkBlk)) [] :=
+  parseGroups_flat items (noNesting_spec items hn)
+
+/-- two lists of blocks with disjoint sets of headers, no header generalising another one: the grouping of the
+    concatenation is the concatenation of the groupings (and it fails exactly when the first failing part fails) -/
+theorem C11_independent (items1 items2 : List T)
+    (hdisj : ∀ b1 ∈ items1.map mkBlk, ∀ b2 ∈ items2.map mkBlk, groupIdOf b1.item ≠ groupIdOf b2.item)
+    (hn : noNesting (items1 ++ items2) = true) :
+    parseGroups (items1 ++ items2) =
+      (match parseGroups items1 with
+       | .ok g1 => (parseGroups items2).prepend g1
+       | r => r) :=
+  parseGroups_independent items1 items2 hdisj (by simpa [noNesting] using hn)
+
+/-! ## Non-vacuity: the README example is accepted -/
+
 
 set_option maxRecDepth 1000000 in
 /-- `impl<T: Dispatch<Group = GroupA>> Kita for T` and `… GroupB …`: accepted, one family with both blocks, one key,
